@@ -52,7 +52,11 @@ def cases(draw, tier, mode):
         dims.append(draw(Q.dim_specs(N, t2)))
     if draw(st.booleans()):
         dims.reverse()
-    case = {"N": N, "dims": dims, "shape_mode": draw(st.sampled_from(["exact", "padded", "inferred"])),
+    alias = False
+    if scaffold * scaffold <= 16 and draw(st.integers(0, 5)) == 0:
+        dims = [d0, dict(d0)]  # an item-by-item table: the very same index object serves as both dimensions
+        alias = True
+    case = {"N": N, "dims": dims, "alias": alias, "shape_mode": draw(st.sampled_from(["exact", "padded", "inferred"])),
             "pads": [1] * len(dims), "kind": draw(st.sampled_from(["ccube", "xcube"]))}
     f = draw(Q.fact_specs(N, dtypes=("float",)))
     case["fact"] = f
@@ -185,9 +189,12 @@ def build_call(case):
         farg, _, _ = Q.fact_arrays(fspec, N)
         warg, _, _ = Q.weight_arrays(case["weights"], N)
         if kind == "ccube":
-            cube = ccube([Q.build_index(a, c) for a, c in zip(dense, commons)], shape_arg)
+            dims_ = [Q.build_index(a, c) for a, c in zip(dense, commons)]
         else:
-            cube = xcube([a.copy() for a in dense], shape_arg)
+            dims_ = [a.copy() for a in dense]
+        if case.get("alias") and len(dims_) == 2:
+            dims_[1] = dims_[0]
+        cube = (ccube if kind == "ccube" else xcube)(dims_, shape_arg)
         return cube, [c17.make_func(kind, f, farg, warg) for f in funcs]
 
     return fresh, funcs
